@@ -55,6 +55,7 @@ var Configs = []Config{
 	{Name: "builder:transport+guest/tls-only", Schemes: []lime.AuthenticationScheme{lime.AuthenticationSchemeTransport, lime.AuthenticationSchemeGuest}, Enc: []lime.SessionEncryption{tlsE}, Comp: []lime.SessionCompression{cno}, TLS: true, FromBuilder: true},
 	{Name: "builder-auth:transport+guest+plain+key+external/none", Schemes: []lime.AuthenticationScheme{lime.AuthenticationSchemeTransport, lime.AuthenticationSchemeGuest, lime.AuthenticationSchemePlain, lime.AuthenticationSchemeKey, lime.AuthenticationSchemeExternal}, Enc: []lime.SessionEncryption{none}, Comp: []lime.SessionCompression{cno}, FromBuilder: true, RealAuth: true},
 	{"guest/none/gzip-only", []lime.AuthenticationScheme{lime.AuthenticationSchemeGuest}, []lime.SessionEncryption{none}, []lime.SessionCompression{gz}, false, false, false},
+	{"plain/tls-only/gzip-only", []lime.AuthenticationScheme{lime.AuthenticationSchemePlain}, []lime.SessionEncryption{tlsE}, []lime.SessionCompression{gz}, true, false, false},
 }
 
 // what a TCP transport reports as supported
@@ -109,6 +110,7 @@ type input struct {
 	rawJSON string // for data/garbage
 	vanish  bool   // close right after sending, without reading the answer
 	from    string // sender node of an authenticating envelope (default clientNode)
+	pp      string // "per procurationem" node of an authenticating envelope (default absent)
 }
 
 func (in input) sender() string {
@@ -122,6 +124,7 @@ func alphabet() []input {
 	var a []input
 	a = append(a, input{name: "new", kind: "session", state: "new"})
 	a = append(a, input{name: "new+id", kind: "session", state: "new", id: "wrong"})
+	a = append(a, input{name: "new+uuid-id", kind: "session", state: "new", id: "uuid"})
 	for _, p := range [][2]string{{"none", "none"}, {"tls", "none"}, {"none", "gzip"}, {"zzz", "none"}} {
 		a = append(a, input{name: "neg(" + p[0] + "," + p[1] + ")", kind: "session", state: "negotiating", id: "echo", enc: p[0], comp: p[1]})
 	}
@@ -133,6 +136,8 @@ func alphabet() []input {
 	}
 	a = append(a, input{name: "auth(guest;from=mallory)", kind: "session", state: "authenticating", id: "echo", scheme: "guest", auth: "obj", from: "mallory@cli.test/home"})
 	a = append(a, input{name: "auth(plain;from=mallory)", kind: "session", state: "authenticating", id: "echo", scheme: "plain", auth: "obj", from: "mallory@cli.test/home"})
+	a = append(a, input{name: "auth(plain;pp=mallory)", kind: "session", state: "authenticating", id: "echo", scheme: "plain", auth: "obj", pp: "mallory@cli.test/home"})
+	a = append(a, input{name: "auth(guest;pp=mallory)", kind: "session", state: "authenticating", id: "echo", scheme: "guest", auth: "obj", pp: "mallory@cli.test/home"})
 	a = append(a, input{name: "auth(plain,wrong-password)", kind: "session", state: "authenticating", id: "echo", scheme: "plain", auth: "bad"})
 	a = append(a, input{name: "auth(plain,bad-base64)", kind: "session", state: "authenticating", id: "echo", scheme: "plain", auth: "b64"})
 	a = append(a, input{name: "auth(key,bad-base64)", kind: "session", state: "authenticating", id: "echo", scheme: "key", auth: "b64"})
@@ -204,6 +209,11 @@ func (in input) bytes(sid string) []byte {
 		m["id"] = sid
 	case "wrong":
 		m["id"] = "not-" + sid
+	case "uuid":
+		m["id"] = "6d8ee4a3-5c4f-4f0e-9d52-3c6f1f3e9b11"
+	}
+	if in.pp != "" {
+		m["pp"] = in.pp
 	}
 	if in.enc != "" {
 		m["encryption"] = in.enc
@@ -308,6 +318,11 @@ func typedEnvelope(in input, sid string) interface{} {
 		ses.ID = sid
 	case "wrong":
 		ses.ID = "not-" + sid
+	case "uuid":
+		ses.ID = "6d8ee4a3-5c4f-4f0e-9d52-3c6f1f3e9b11"
+	}
+	if in.pp != "" {
+		ses.PP = lime.ParseNode(in.pp)
 	}
 	ses.Encryption = lime.SessionEncryption(in.enc)
 	ses.Compression = lime.SessionCompression(in.comp)
@@ -992,6 +1007,10 @@ func judge(prop string) func(x *harness.X, res *rt.Result) {
 						m.stage = stAwaitChoice
 					} else if len(so.got) == 1 && lib.Str(so.got[0], "state") == "authenticating" {
 						m.stage = stAwaitAuth
+					} else if (len(offerComp(cfg)) == 0 || len(offerEnc(cfg)) == 0) && (len(so.got) == 0 || len(so.got) == 1 && lib.Str(so.got[0], "state") == "failed") {
+						// a configuration that shares no compression (or encryption) with the
+						// connection cannot be negotiated: the server gives the connection up
+						m.stage = stSilent
 					} else if want("C07") {
 						x.Failf("C07:order:after-new", "after a valid new session the server emitted %v (expected negotiating options or an authentication request) %s", states(so.got), script())
 						m.stage = stSilent
@@ -1626,7 +1645,7 @@ func Main(prop string) {
 	}
 	switch prop {
 	case "C10":
-		c := sel("plain+key/tls-only", "builder:transport+guest/tls-only")
+		c := sel("plain+key/tls-only", "builder:transport+guest/tls-only", "plain/tls-only/gzip-only")
 		add("server/tls-only/d3", "server", c, 3, true, 0, -1)
 		add("channel/tls-only/d3", "channel", c, 3, true, 0, -1)
 		add("server/tls-only/d5", "server", c, 5, true, -1, 0)
